@@ -172,6 +172,20 @@ CHECKS["C05"] = dict(
     note=TRUST + "AngularGrid contract (data keyed by the least supported degree >= request, C02/C12); Rotation.random(seed).as_matrix() a function of the seed "
          "with orthonormal rows; ragged vstack/hstack semantics with monotone prefix offsets; recorded finding: sg_3 silicon table.",
     technique="contract-based deductive verification: AST symbolic execution with loop contracts (functional cut points, ghost offsets), callee contracts, z3 with index case analysis; bounded/exhaustive native layer as labelled stand-in")
+CHECKS["C07"] = dict(
+    category="proof",
+    text="MolGrid.__init__ for a symbolic number of atomic grids (a list of symbolic length of grid objects with symbolic sizes, centres, points, "
+         "weights) under a loop contract (functional cut point over the four arrays it fills by slice assignment): public points are the atomic "
+         "grids' public points in order at the index-table offsets, index table = prefix sums of the sizes (the code's total size is matched "
+         "against it), atomic coordinates = centres, weights = atomic weights x atom-in-molecule weights (array, or callable applied to "
+         "(points, atcoords, atnums, indices)), size/type rejection, atomic grids kept iff store; get_atomic_grid/__getitem__: the stored atomic "
+         "grid or, without store, a LocalGrid with exactly that atom's public points, atomic weights and centre; from_size/from_preset/from_pruned "
+         "hand per-atom arguments to the atomic constructors and the resulting list, in order, to MolGrid (two atoms instantiated). Bounded layer: "
+         "hand-built comparisons on random molecules, default radial grids, end-to-end 1% clause on presets.",
+    design="8/C07",
+    note=TRUST + "atomic grids by the representation C05 establishes; concatenation defined by segment offsets; atom-in-molecule weights are C06; "
+         "fan-out for two atoms; recorded finding: preset angular pruning next to close large-radius neighbours (end-to-end clause).",
+    technique="contract-based deductive verification: AST symbolic execution with a loop contract over a list of symbolic length (functional cut point), reduction matching, recording callee contracts, z3; bounded native layer as labelled stand-in")
 BOUNDED_ONLY = {
     "C09": ("8/C09", "band-limited decomposition/interpolation on atomic grids: angular integration, radial-component splines through knots, interpolant reproduces grid values, derivative self-consistency, polynomial reproduction, molecular interpolation"),
     "C07": ("8/C07", "molecular grid = weighted concatenation of atomic grids: index table, segments, weights = atweights x aim, views with store on/off, fan-out of from_size/from_preset/from_pruned against hand-built grids, default radial grids, end-to-end 1% clause on presets"),
